@@ -41,7 +41,9 @@ def install(eng):
                  trusted=True)
 
     # ---- FileSpecHashes
-    S = ["C18", "C01", "C09"]
+    # the spec-hash store carries clauses of several properties: recorded on submission / touch (C18, C16), erased by
+    # clean (C15), consulted by the up-to-date decision (C01) and therefore by convergence and the previews (C06, C05)
+    S = ["C18", "C01", "C05", "C06", "C09", "C15", "C16"]
     eng.contract("gwf.core:FileSpecHashes.has_changed", self_type=FH, params={"self": FH, "target": vc.Target},
                  returns=OH, requires=["self.is_file"],
                  ensures=IF_HAS + ["implies(result is not None, the(result) == Sha1(target.spec))", SAME], serves=S)
